@@ -514,7 +514,9 @@ func c13Main(r *engine.Run) {
 		return o
 	}
 	for i, p := range polys {
-		c13Check(r, id.Polygon(p).AsGeometry(), lp(p), "polygon", i%5 == 0)
+		c13Check(r, id.Polygon(p).AsGeometry(), lp(p), "polygon", i%5 == 0 || len(p) <= 5)
+		// the same ring wound clockwise and started elsewhere
+		c13Check(r, id.Polygon(rotateRing(p, 1, true)).AsGeometry(), lp(p), "polygon (clockwise)", i%5 == 0 || len(p) <= 5)
 	}
 	for i, p := range paths {
 		c13Check(r, id.Line(p).AsGeometry(), lp(p), "linestring", i%5 == 0)
